@@ -23,7 +23,8 @@ GEN = ['nummaps', 'chartables']
 REQUIRED_THEOREMS = ['english_value', 'english_cardinal', 'english_ordinal', 'english_sub1000', 'spell_words_in_maps',
                      'spanish_sub1000', 'portuguese_sub1000', 'german_sub1000', 'dutch_sub1000',
                      'french_sub1000_partial', 'french_plural_cents_witness', 'italian_sub1000_partial',
-                     'italian_accented_tre_witness']
+                     'italian_accented_tre_witness', 'cjk_int_zh', 'cjk_int_ja_partial', 'cjk_ja_bare_unit_witness',
+                     'cjk_round_div10']
 RULE = ('unit: __get_int_value on every English numeral of the pipeline set + seeded token lists over each '
         "culture's map keys; pipeline: English n<10^4 (quick: every 7th + boundaries; thorough: all), 10^k, 10^k±1, "
         'seeded n<10^15, x 8 variants x cardinal/ordinal x alone/carrier; es fr pt de it nl zh ja: generator output '
@@ -206,6 +207,14 @@ def unit_cjk(ctx):
         cfg = parser.config
         chars = [k for k, v in cfg.zero_to_nine_map.items() if isinstance(v, int)] + list(cfg.round_number_map_char.keys())
         strs = [gen(n) for n in list(range(0, 300)) + [r.randint(0, 10 ** 11) for _ in range(800)]]
+        # the Lean specification below 10000 (the generator the theorems cjk_int_* are about)
+        spec_ns = list(range(0, 10000)) if ctx.thorough else list(range(0, 1200)) + list(range(1200, 10000, 11))
+        spec = [uncps(x) for x in common.driver(['n.spellcjk\t%s\t%d' % (w, n) for n in spec_ns])]
+        for n, sp in zip(spec_ns, spec):
+            if sp != gen(n):
+                ctx.report('correspondence', 'cjk-generators', '%s numeral of %d: specification %r, harness generator %r' % (
+                    cu, n, sp, gen(n)), failing_input={'culture': cu, 'n': n, 'model': sp, 'implementation': gen(n)})
+        strs += spec
         for _ in range(4000 if ctx.thorough else 1000):
             strs.append(''.join(r.choice(chars) for _ in range(r.randint(1, 7))))
         import regex as _re
